@@ -784,7 +784,7 @@ macro_rules! wrap_all {
         push_full!($out;
             $t, Option<$t>, Vec<$t>, Vec<Vec<$t>>, Vec<Option<$t>>, Option<Vec<$t>>, Box<$t>, Arc<$t>,
             HashMap<String, $t>, BTreeMap<i32, Vec<$t>>, HashMap<i64, ($t,)>,
-            ($t,), ($t, i32), (String, $t), (i32, $t, String), (Vec<$t>, $t), Vec<($t, i32)>, (($t,), i8),
+            ($t,), ($t, i32), (String, $t), (i32, $t, String), (Vec<$t>, $t), Vec<($t, i32)>, (($t,), i8), (Option<$t>, Option<String>),
         );
     )+ };
 }
